@@ -1538,16 +1538,18 @@ class TextQueryBackend(Backend):
             return
 
         # Store original expressions
+        # The expressions are swapped on the class, so the values of the class are stored (an
+        # instance attribute of the same name would be written to the class on restore).
         original_expressions = {
-            "eq_expression": self.eq_expression,
-            "re_expression": self.re_expression,
-            "cidr_expression": self.cidr_expression,
-            "startswith_expression": self.startswith_expression,
-            "case_sensitive_startswith_expression": self.case_sensitive_startswith_expression,
-            "endswith_expression": self.endswith_expression,
-            "case_sensitive_endswith_expression": self.case_sensitive_endswith_expression,
-            "contains_expression": self.contains_expression,
-            "case_sensitive_contains_expression": self.case_sensitive_contains_expression,
+            "eq_expression": self.__class__.eq_expression,
+            "re_expression": self.__class__.re_expression,
+            "cidr_expression": self.__class__.cidr_expression,
+            "startswith_expression": self.__class__.startswith_expression,
+            "case_sensitive_startswith_expression": self.__class__.case_sensitive_startswith_expression,
+            "endswith_expression": self.__class__.endswith_expression,
+            "case_sensitive_endswith_expression": self.__class__.case_sensitive_endswith_expression,
+            "contains_expression": self.__class__.contains_expression,
+            "case_sensitive_contains_expression": self.__class__.case_sensitive_contains_expression,
         }
 
         # Swap to negated versions
